@@ -59,16 +59,22 @@ var c07Starts = map[string][]string{
 	"ping-in-flight": {"foundlive:A.1.a", "foundlive:B.1.a", "tick:0"},
 	"four-fails":     {"foundlive:A.1.a", "foundlive:F0", "foundlive:F1", "foundlive:F2", "track:A:fail", "track:A:fail", "track:A:fail", "track:A:fail"},
 	"credit-four":    {"foundlive:A.1.a", "found:B.1.a", "tick:0", "ans:A:alive", "tick:0,0", "ans:A:alive", "ans:B:alive", "tick:0,0", "ans:A:alive"},
+	// record forms (c07_forms.go): A is known with its IPv4 address in the IPv4-mapped form of the
+	// "ip6" entry, B with a plain address of the same real /24; the pool switches forms both ways
+	"addr-forms": {"foundlive:A.1.a.m", "foundlive:B.1.b"},
+	// a verified and an unverified entry; the pool re-adds them through all three entry points,
+	// forceSetLive included, with the same / a newer / an older record
+	"known-forcelive": {"foundlive:A.1.a", "found:B.1.a"},
 }
 
-var c07StartOrder = []string{"empty", "full256", "almost-full", "ip-limit-minus-one", "four-fails", "credit-four", "mixed-subnets", "ping-in-flight"}
+var c07StartOrder = []string{"empty", "full256", "almost-full", "ip-limit-minus-one", "four-fails", "credit-four", "mixed-subnets", "ping-in-flight", "addr-forms", "known-forcelive"}
 
 func c07Pool(start string, thorough bool) (recs, ids []string, kinds []string) {
 	recs = []string{"A.1.a", "A.2.a", "A.2.b", "B.1.a", "X.1.b", "C.1.d", "D.1.a", "D.2.l"}
 	ids = []string{"A", "B", "C", "D"}
 	kinds = []string{"alive", "dead", "nofetch", "newip", "newport"}
 	if start == "ip-limit-minus-one" {
-		recs = []string{"A.1.a", "A.2.b", "H.1.b", "I.1.b", "I.1.l", "D.1.a", "C.1.d"}
+		recs = []string{"A.1.a", "A.2.b", "H.1.b", "I.1.b", "I.1.l", "D.1.a", "C.1.d", "H.1.b.m", "H.2.b"}
 		ids = []string{"A", "H", "I", "G0"}
 	}
 	if start == "mixed-subnets" { // a refused move into a full /24, then more nodes of the old /24
@@ -78,11 +84,41 @@ func c07Pool(start string, thorough bool) (recs, ids []string, kinds []string) {
 	if start == "full256" || start == "almost-full" {
 		ids = []string{"A", "B", "F0", "F16"}
 	}
+	if start == "addr-forms" {
+		// same address other form (newer / same seq), same form newer, B plain -> mapped, a third
+		// node of the real /24 plain and mapped, a move to a real IPv6 address
+		recs = []string{"A.2.a", "A.2.a.m", "A.1.a", "B.2.b.m", "X.1.b", "X.1.a.m", "X.2.v"}
+		ids = []string{"A", "B", "X"}
+		kinds = []string{"alive", "dead", "newform", "newip"}
+	}
+	if start == "known-forcelive" {
+		recs = []string{"A.1.a", "A.2.a", "A.2.c", "A.2.b", "A.3.a", "B.2.c", "X.1.d"}
+		ids = []string{"A", "B", "X"}
+		kinds = []string{"alive", "dead", "newport"}
+	}
 	if thorough {
 		recs = append(recs, "A.2.c", "B.2.d", "E.1.a")
 		kinds = []string{"alive", "dead", "nofetch", "newseq", "newip", "newsubnet", "newport", "lowerseq"}
+		if start == "addr-forms" {
+			recs = append(recs, "C.1.a.m", "X.2.w", "A.3.b.m")
+			kinds = append(kinds, "newform")
+		}
 	}
 	return
+}
+
+// c07LiveRecs: the records that are also delivered through the forceSetLive entry point
+// ("foundlive:<rec>": AddEnr, processPong / processNodes / processContent / processOffer) in
+// the event alphabet of a start state - to nodes that already sit in their bucket above all.
+func c07LiveRecs(start string, thorough bool) []string {
+	switch start {
+	case "known-forcelive":
+		recs, _, _ := c07Pool(start, thorough)
+		return append([]string{"B.1.a"}, recs...)
+	case "addr-forms":
+		return []string{"A.2.a", "A.1.a"}
+	}
+	return nil
 }
 
 type c07Obs struct {
@@ -153,6 +189,9 @@ func (t *tabEnv) enabled(o c07Obs, start string, thorough bool) []string {
 	var evs []string
 	for _, r := range recs {
 		evs = append(evs, "found:"+r, "inbound:"+r)
+	}
+	for _, r := range c07LiveRecs(start, thorough) {
+		evs = append(evs, "foundlive:"+r)
 	}
 	for _, id := range ids {
 		evs = append(evs, "del:"+id)
@@ -322,7 +361,7 @@ func sameIDs(a, b []enode.ID) bool {
 	return true
 }
 
-func c18Transition(t *tabEnv, prev, next c07Obs, ev string, viol func(clause, site, detail string)) {
+func c18Transition(t *tabEnv, prev, next c07Obs, ev string, cleared c18Cleared, viol func(clause, site, detail string), count func(string)) {
 	p, n := indexSnap(prev.snap), indexSnap(next.snap)
 	parts := strings.Split(ev, ":")
 	kind := parts[0]
@@ -378,7 +417,7 @@ func c18Transition(t *tabEnv, prev, next c07Obs, ev string, viol func(clause, si
 		}
 	}
 	// (3) full bucket + newcomer: entries unchanged, newcomer pushed in front of the replacements
-	if kind == "found" || kind == "inbound" {
+	if kind == "found" || kind == "foundlive" || kind == "inbound" {
 		rec := tabNode(parts[1])
 		bIdx := t.vt.BucketIndex(rec.ID())
 		pb, nb := p.byB[bIdx], n.byB[bIdx]
@@ -410,8 +449,55 @@ func c18Transition(t *tabEnv, prev, next c07Obs, ev string, viol func(clause, si
 		if !(kind == "inbound" && id == subject) && ne.Seq <= pe.Seq {
 			viol("record-changes-only-to-a-higher-sequence-number", kind, fmt.Sprintf("%s: record seq %d %s:%d -> seq %d %s:%d in step %q", t.name(id), pe.Seq, pe.IP, pe.Port, ne.Seq, ne.IP, ne.Port, ev))
 		}
-		if (pe.IP != ne.IP || pe.Port != ne.Port) && ne.Live {
+		// (the same IPv4 address in another record form is the same endpoint: nothing is demanded then)
+		if snapEndpoint(pe) != snapEndpoint(ne) && ne.Live {
 			viol("endpoint-change-clears-verified-status", kind, fmt.Sprintf("%s: endpoint %s:%d -> %s:%d in step %q but the entry is still marked verified", t.name(id), pe.IP, pe.Port, ne.IP, ne.Port, ev))
+		}
+	}
+	// (6) ... and the status stays cleared until something speaks for the endpoint now stored:
+	// the entry's endpoint was changed in an earlier step (cleared, as of the state before this
+	// step), it was unverified before this step and is verified after it. That is in order for
+	// the answer of a liveness check and for a contact / report that names exactly the stored
+	// endpoint (the statement does not say what may set the status); a record naming ANOTHER
+	// endpoint - a stale answer to a request addressed with the old record - says nothing
+	// about this one.
+	for id, ne := range n.entry {
+		pe, was := p.entry[id]
+		at, flagged := cleared[id]
+		if !was || !flagged || pe.Live || !ne.Live || snapEndpoint(pe) != at.ep || snapEndpoint(ne) != at.ep {
+			continue
+		}
+		if kind == "ans" && id == subject {
+			if at.stale { // upstream behaviour, not claimed by the statement either way: evidence only
+				count("liveness_answer_for_the_old_endpoint_marks_the_changed_endpoint_verified")
+			}
+			continue
+		}
+		if (kind == "found" || kind == "foundlive" || kind == "inbound") && id == subject {
+			if r := tabNode(parts[1]); fmt.Sprintf("%s:%d", r.IPAddr().Unmap(), r.UDP()) == at.ep {
+				continue
+			}
+		}
+		viol("endpoint-change-clears-verified-status", kind+"-naming-another-endpoint", fmt.Sprintf("%s: the endpoint was changed to %s in an earlier step, which cleared the verified status; step %q, which names another endpoint or none, marks the entry verified again", t.name(id), at.ep, ev))
+	}
+	// what the forceSetLive entry point was tried on
+	if kind == "foundlive" {
+		rec := tabNode(parts[1])
+		if pe, known := p.entry[rec.ID()]; known {
+			class := "older or same record"
+			switch {
+			case rec.Seq() > pe.Seq && fmt.Sprintf("%s:%d", rec.IPAddr().Unmap(), rec.UDP()) != snapEndpoint(pe):
+				class = "newer record, other endpoint"
+			case rec.Seq() > pe.Seq:
+				class = "newer record, same endpoint"
+			}
+			v := "verified"
+			if !pe.Live {
+				v = "unverified"
+			}
+			count("forcesetlive on a known " + v + " entry: " + class)
+		} else {
+			count("forcesetlive on a node that is no entry")
 		}
 	}
 }
@@ -425,12 +511,24 @@ var c07Enabled sync.Map // start + "\x00" + history -> []string
 func c07Run1(r *mc.Report, prop, start string, hist []string, thorough bool) (canon string, expand bool) {
 	c := c07Case{start, hist, prop}
 	viol := func(clause, site, detail string) { r.Violation(clause, site, detail, c) }
+	if prop == "C07" && histHasForms(start, hist) {
+		// input class: the per-/24 accounting across records whose address is not a plain IPv4 in "ip"
+		viol = func(clause, site, detail string) {
+			if strings.Contains(clause, "slash24") {
+				site += "-with-mixed-address-forms"
+			}
+			r.Violation(clause, site, detail, c)
+		}
+	}
 	drift := func(what string) { r.Count("internal_drift: "+what, 1) }
 	msg := inBubble(func() {
 		t := newTabEnv()
 		t.startLoop()
 		defer t.stop()
 		model := newTabModel()
+		cleared := c18Cleared{} // C18: endpoints stored by an endpoint change and not confirmed since (before the last event)
+		var lastSnap portalwire.VSnap
+		follow, final := prop == "C18", false
 		applyBoth := func(ev string) string { // the real table and the reference model step together
 			was := map[string]bool{}
 			for _, id := range t.pendingIDs() {
@@ -441,6 +539,11 @@ func c07Run1(r *mc.Report, prop, start string, hist []string, thorough bool) (ca
 			}
 			if t.loopErr != "" {
 				return ""
+			}
+			if follow && !final {
+				now := t.vt.Snapshot()
+				cleared.step(lastSnap, now, ev)
+				lastSnap = now
 			}
 			var started []string
 			for _, id := range t.pendingIDs() {
@@ -462,6 +565,7 @@ func c07Run1(r *mc.Report, prop, start string, hist []string, thorough bool) (ca
 		for i, ev := range hist {
 			if i == len(hist)-1 {
 				prev = t.observe(ids)
+				final = true
 			}
 			if e := applyBoth(ev); e != "" {
 				r.EngineError(fmt.Sprintf("replay of %v: %s", hist, e))
@@ -487,8 +591,11 @@ func c07Run1(r *mc.Report, prop, start string, hist []string, thorough bool) (ca
 		}
 		if prop == "C07" {
 			c07Invariants(t, o, viol, drift)
+			if len(hist) > 0 && o.loopErr == "" {
+				c07CountForms(r, prev, o, hist[len(hist)-1])
+			}
 		} else if len(hist) > 0 && o.loopErr == "" {
-			c18Transition(t, prev, o, hist[len(hist)-1], viol)
+			c18Transition(t, prev, o, hist[len(hist)-1], cleared, viol, func(what string) { r.Count(what, 1) })
 		}
 		canon = t.canon(o)
 		expand = o.loopErr == ""
@@ -561,10 +668,43 @@ func c07Explore(r *mc.Report, e *Env, prop string) {
 		r.Sample(c07Case{"full256", []string{"found:A.1.a", "tick:0,0", "ans:F0:dead"}, prop})
 		r.Sample(c07Case{"ip-limit-minus-one", []string{"found:H.1.b", "inbound:I.1.b", "del:G0"}, prop})
 		r.Sample(c07Case{"four-fails", []string{"track:A:fail"}, prop})
+		r.Sample(c07Case{"addr-forms", []string{"tick:0,0", "ans:A:newform", "found:X.1.b"}, prop})
+		r.Sample(c07Case{"known-forcelive", []string{"found:A.2.c", "foundlive:A.1.a"}, prop})
 	}
 	r.Assume("events: found/inbound over 8 (thorough 11) records of 4-6 colliding ids, delete, revalidation tick with every representative choice of the checked node, answers {alive, dead, new ip, new port} (thorough + new seq, new subnet, lower-seq record), lookup feedback ok/fail/with found nodes, refresh; fillers are interchangeable and represented by one index per list")
+	r.Assume("record forms: start state addr-forms and the pool of ip-limit-minus-one also hold records that carry an IPv4 address as IPv4-mapped IPv6 address in the ip6 entry (same node: newer / same-seq record in the other form, both directions; revalidation answer newform) and a real IPv6 address; a /24 is taken of the address in the form the table keeps it (an IPv4-mapped address counts for ::/24, as in the table's own sets), not of the embedded IPv4 address")
+	r.Assume("forceSetLive entry point (AddEnr, processPong/Nodes/Content/Offer): foundlive events on known entries are part of the alphabet of the start states known-forcelive (every pool record: same, newer with the same / another port / another ip, older) and addr-forms; the other start states use it for fresh ids while building the start state only")
 	r.Assume("the first-level events of every start state are dealt out to worker processes with separate visited sets: the reported state count can include duplicates across workers")
 	r.Assume("the node database stays below 6 successful checks per node, so no seed nodes are loaded")
+}
+
+// c07CountForms: evidence of what the record-form dimension reached - transitions in which a
+// stored entry's address changed between the plain and the IPv4-mapped form of one IPv4 address.
+func c07CountForms(r *mc.Report, prev, next c07Obs, ev string) {
+	p, n := indexSnap(prev.snap), indexSnap(next.snap)
+	kind := ev[:strings.Index(ev+":", ":")]
+	for id, ne := range n.entry {
+		pe, was := p.entry[id]
+		if !was || pe.IP == ne.IP {
+			continue
+		}
+		a, b := netip.MustParseAddr(pe.IP), netip.MustParseAddr(ne.IP)
+		if a.Unmap() == b.Unmap() {
+			dir := "plain->mapped"
+			if a.Is4In6() {
+				dir = "mapped->plain"
+			}
+			r.Count("address form switch of a stored entry ("+dir+") by "+kind, 1)
+		}
+	}
+	for _, b := range next.snap.Buckets {
+		for _, e := range append(append([]portalwire.VNodeSnap{}, b.Entries...), b.Replacements...) {
+			if a := netip.MustParseAddr(e.IP); !a.Is4() {
+				r.Count("states holding a node with an IPv4-mapped or IPv6 address", 1)
+				return
+			}
+		}
+	}
 }
 
 func mcShort(s string) string {
@@ -604,7 +744,7 @@ func init() {
 	register(&Prop{ID: "C18", Level: "model_checking", Procs: 1, Budget: budget,
 		Workers: func(e *Env) int { return len(c07Units(e.Thorough())) * c07Shards },
 		Run: func(r *mc.Report, e *Env) {
-			r.Rule = "BFS as in C07; on every transition the displacement clauses are evaluated on (snapshot before, event, snapshot after): an entry leaves only by a failed liveness answer, a fifth consecutive fruitless query with >= 4 entries in the bucket, or deletion; a removed entry is succeeded by a replacement iff one existed; a newcomer to a full bucket leaves the entries unchanged and is pushed in front of the replacement list (at most 10); a stored record changes only to a higher sequence number unless the node itself contacted us; an endpoint change clears the verified status"
+			r.Rule = "BFS as in C07; on every transition the displacement clauses are evaluated on (snapshot before, event, snapshot after): an entry leaves only by a failed liveness answer, a fifth consecutive fruitless query with >= 4 entries in the bucket, or deletion; a removed entry is succeeded by a replacement iff one existed; a newcomer to a full bucket leaves the entries unchanged and is pushed in front of the replacement list (at most 10); a stored record changes only to a higher sequence number unless the node itself contacted us; an endpoint change clears the verified status, whoever reports it (found, inbound, forceSetLive, revalidation answer), and a later step that names another endpoint than the stored one does not bring the status back"
 			c07Explore(r, e, "C18")
 		},
 		Replay: func(r *mc.Report, e *Env, raw json.RawMessage) {
